@@ -60,7 +60,7 @@ def canon_step(st):
             tuple(vlib.canon_text(x) for x in st.get("messages", [])))
 
 
-def run_programs(runner, progs, opts, steps_budget=3000000, tag=""):
+def run_programs(runner, progs, opts, steps_budget=3000000, tag="", timeout_per_batch=600, batch=200):
     """progs: [(name, src, modules, ...)]. Returns list of the last step's result dict (or crash dict)."""
     lines = []
     for i, p in enumerate(progs):
@@ -69,7 +69,7 @@ def run_programs(runner, progs, opts, steps_budget=3000000, tag=""):
         o = dict(opts)
         o.setdefault("steps", steps_budget)
         lines.append(vlib.case_line("%s%d" % (tag, i), steps, **o))
-    res = vlib.run_real(runner, lines)
+    res = vlib.run_real(runner, lines, timeout_per_batch=timeout_per_batch, batch=batch)
     out = []
     for r in res:
         if "steps" in r and r["steps"]:
